@@ -356,3 +356,120 @@ GENERATORS = {
     "bht": gen_bht,
     "mrq": gen_mrq,
 }
+
+
+# ---------------------------------------------------------------------------
+# C12: fitting workloads with fixed subsets, limit boxes, constraints
+# ---------------------------------------------------------------------------
+FAMILY_ORDER = {
+    # parameter name -> lmfit identifier (symbol_runningindex) per family
+    "R(RC)": {"R0": "R_0", "R1": "R_1", "C1": "C_2"},
+    "R(RQ)": {"R0": "R_0", "R1": "R_1", "Y1": "Y_2", "n1": "n_2"},
+    "R(RC)(RC)": {"R0": "R_0", "R1": "R_1", "C1": "C_2", "R2": "R_3", "C2": "C_4"},
+    "R(RC)(RQ)": {"R0": "R_0", "R1": "R_1", "C1": "C_2", "R2": "R_3", "Y2": "Y_4", "n2": "n_4"},
+    "R(C[RW])": {"R0": "R_0", "C1": "C_1", "R1": "R_2", "Y1": "Y_3"},
+    "RL(RQ)": {"R0": "R_0", "L0": "L_1", "R1": "R_2", "Y1": "Y_3", "n1": "n_3"},
+}
+
+
+def gen_fit_c12(rng, quick=True, recovery=False):
+    family = rng.choice(FAMILIES[:5] if quick else FAMILIES)
+    logf, n = window(rng)
+    n = max(n, 16)
+    if quick:
+        n = min(n, 24)
+    p = family_params(rng, family, logf)
+    start = perturbed(rng, p, rng.choice([1.5, 2.0, 3.0]))
+    extras = {}
+    fixed = []
+    boxes = {}
+    bites = False
+    for name in p:
+        is_n = name.startswith("n")
+        if rng.random() < (0.15 if recovery else 0.25):
+            fixed.append(name)
+            if recovery or rng.random() < 0.5:
+                start[name] = p[name]
+        r = rng.random()
+        if r < 0.45:
+            lo_src, hi_src = min(p[name], start[name]), max(p[name], start[name])
+            if not recovery and name not in fixed and rng.random() < 0.35:
+                # box contains the start but not the truth: the bound must bite
+                bites = True
+                if p[name] > start[name]:
+                    lo_src, hi_src = start[name] / 2.0, (start[name] * p[name]) ** 0.5
+                else:
+                    lo_src, hi_src = (start[name] * p[name]) ** 0.5, start[name] * 2.0
+                if is_n:
+                    lo_src, hi_src = max(0.0, lo_src), min(1.0, hi_src)
+                lo, hi = lo_src, hi_src
+            else:
+                k1 = rng.choice([1.05, 1.5, 10.0])
+                k2 = rng.choice([1.05, 1.5, 10.0])
+                lo, hi = lo_src / k1, hi_src * k2
+                if is_n:
+                    lo, hi = max(0.0, lo), min(1.0 if rng.random() < 0.8 else 1.5, hi if hi > hi_src else 1.0)
+            if lo < start[name] < hi or (lo <= start[name] <= hi and name in fixed):
+                boxes[name] = [lo, hi]
+    for name in p:
+        s = ""
+        if name in fixed:
+            s += "F"
+        if name in boxes:
+            s += f"/{_g(boxes[name][0])}/{_g(boxes[name][1])}"
+        extras[name] = s
+    cdc = family_cdc(family, start, extras)
+    # labels on some elements (name override in the parameter table)
+    labelled = False
+    if rng.random() < 0.3:
+        cdc = cdc.replace("}", ":ct}", 1) if rng.random() < 0.5 else cdc[::-1].replace("}", "}lbl:", 1)[::-1]
+        labelled = True
+    constraint = None
+    if family in ("R(RC)(RC)", "R(RC)(RQ)") and "R1" not in fixed and "R2" not in fixed and "R2" not in boxes and "R1" not in boxes and rng.random() < (0.25 if not recovery else 0.15):
+        ratio = p["R2"] / p["R1"]
+        if rng.random() < 0.5:
+            constraint = {"expressions": {"R_3": "ratio * R_1"}, "variables": {"ratio": {"value": ratio, "vary": False}}}
+        else:
+            constraint = {"expressions": {"R_3": "ratio * R_1"}, "variables": {"ratio": {"value": ratio * 1.3, "min": ratio / 3, "max": ratio * 3}}}
+    if recovery:
+        methods, weights = "auto", "auto"
+    else:
+        r = rng.random()
+        if r < 0.15:
+            methods, weights = "auto", "auto"
+        elif r < 0.6:
+            methods = rng.sample(METHODS, rng.randint(2, 4))
+            weights = rng.sample(WEIGHTS, rng.randint(1, 3))
+        elif r < 0.75:
+            m = rng.sample(FAST_METHODS, 2)
+            methods = [m[0], m[1], m[0]]
+            weights = rng.sample(WEIGHTS, rng.randint(1, 2))
+        else:
+            methods = rng.choice(METHODS)
+            weights = rng.choice(WEIGHTS + ["auto"])
+    kwargs = {"method": methods, "weight": weights}
+    if constraint:
+        kwargs["constraint_expressions"] = constraint["expressions"]
+        kwargs["constraint_variables"] = constraint["variables"]
+    if not recovery and rng.random() < 0.15:
+        kwargs["max_nfev"] = rng.choice([5, 20, 200])
+    return {
+        "entry": "fit_circuit",
+        "family": family,
+        "truth": p,
+        "start": start,
+        "fixed": fixed,
+        "boxes": boxes,
+        "bound_must_bite": bites,
+        "labelled": labelled,
+        "recovery": bool(recovery),
+        "data": {
+            "cdc": family_cdc(family, p), "logf": logf, "n": n,
+            "noise_pct": 0.0 if recovery else rng.choice([0.0, 0.0, 0.1]),
+            "noise_seed": rng.randrange(10**6),
+            "mask": [] if recovery else mask_indices(rng, n, 0.2),
+            "order": "desc",
+        },
+        "circuit": cdc,
+        "kwargs": kwargs,
+    }
